@@ -38,6 +38,10 @@ RULE = ("cases: harness/gen/formulas.py restricted to quantifier-free (theory at
         "a fresh pysmt Environment per batch; distinct = distinct (converter, formula structure); "
         "wide-function family: 2-3 applications of a function of arity 3-4 over 4-5 argument variables with repeated arguments across positions "
         "(35% the cross arrangement f(a,c,a)/f(b,d,c)), checked exactly over the domain {0,1} with injective and random function tables; "
+        "deep-difference family (identity by printed form: str()/repr() of an FNode is serialize(threshold=5)): pairs and triples of Boolean (Or/And) and "
+        "arithmetic (Plus/Minus) nestings identical down to depth d = 3..9 that differ at one leaf, as arguments of two or three applications of one "
+        "function (Ackermann), as two atoms and as two conjuncts of one CNF input (both converters), at most 8 symbols, decided exactly over {0,1} "
+        "(CNF: DPLL over the auxiliary symbols), plus symbols NAMED like another term's printed form next to that term; "
         "history families: 2-4 calls on ONE Ackermannizer (later formulas over applications seen before: all/some/none) and on ONE CNFizer / "
         "PolarityCNFizer (later formulas built from earlier formulas and shared sub-formulas); when the Ackermann correspondence differs an "
         "escalated search (exact oracle / 80+160 small-domain interpretations per disagreeing input) runs before no-failing-input-found")
@@ -478,7 +482,7 @@ def search_cnf(chk, env, rnd, r, stats, exact_small=False):
         chk.violation({"kind": "input", "what": "%s: result is not a set of clauses of literals: %s" % (kind, bad.serialize()),
                        "formula": f.serialize(), "repro": repro(kind, f)}, key="%s-shape:%s" % (kind, short_key(f)))
         return
-    res = check_equisat(env, rnd, f, cl, exact_small=exact_small)
+    res = check_equisat(env, rnd, f, cl, exact_small=exact_small, max_aux=(5 if exact_small else 10))
     if res is None:
         stats["searched"] += 1
         return
@@ -542,7 +546,7 @@ def cnf_part(chk, rnd, tier):
                 fs.append(pg.gen(rnd.randint(1, 4)))
         dg = DeepGen(env, rnd)
         deepf = []
-        if b % 3 == 0 or tier != "quick":
+        if b == 0 or (tier != "quick" and b % 16 == 0):
             for d in range(3, 10):
                 deepf += dg.cnf_inputs(d, all_shapes=(tier != "quick"))
         if b == 0:
@@ -1056,10 +1060,10 @@ class DeepGen(object):
         from pysmt.typing import INT, BOOL, FunctionType
         self.m = m = env.formula_manager
         self.rnd = rnd
-        self.bv = [m.Symbol(n, BOOL) for n in ("a", "b", "c", "d", "e", "g")]
-        self.bl = [m.Symbol(n, BOOL) for n in ("x", "y", "z")]
-        self.iv = [m.Symbol(n, INT) for n in ("i", "j", "k", "l", "m", "n")]
-        self.il = [m.Symbol(n, INT) for n in ("u", "v", "w")]
+        self.bv = [m.Symbol(n, BOOL) for n in ("da", "db", "dc", "dd", "de", "dg")]
+        self.bl = [m.Symbol(n, BOOL) for n in ("dx", "dy", "dz")]
+        self.iv = [m.Symbol(n, INT) for n in ("ia", "ib", "ic", "id", "ie", "ig")]
+        self.il = [m.Symbol(n, INT) for n in ("iu", "iv", "iw")]
         self.pb = m.Symbol("pb", FunctionType(BOOL, [BOOL]))
         self.pi = m.Symbol("pi", FunctionType(BOOL, [INT]))
         self.fi = m.Symbol("fi", FunctionType(INT, [INT]))
@@ -1096,7 +1100,7 @@ class DeepGen(object):
         shapes.append(m.And(P(t3[0]), m.Not(P(t3[1])), P(t3[2]), m.Iff(x, y)))
         i3 = [self.ichain(d, l, nv=5) for l in (u, v, w)]
         shapes.append(m.And(m.Equals(v, w), m.Equals(F(i3[0]), u), m.Not(m.Equals(F(i3[1]), F(i3[2])))))
-        return shapes if all_shapes else r.sample(shapes, 4)
+        return shapes if all_shapes else r.sample(shapes, 3)
 
     def cnf_inputs(self, d, all_shapes):
         m, r = self.m, self.rnd
@@ -1112,7 +1116,7 @@ class DeepGen(object):
                   m.Or(m.Equals(tu, tv), m.Not(m.Equals(u, v)))]
         t3 = [self.bchain(d, l, nv=5) for l in (x, y, z)]
         shapes.append(m.And(t3[0], m.Not(t3[1]), m.Or(t3[2], m.Not(x))))
-        return shapes if all_shapes else r.sample(shapes, 4)
+        return shapes if all_shapes else r.sample(shapes, 3)
 
     def name_clash_inputs(self):
         """Symbols whose NAME is another term's printed form, next to that term."""
@@ -1268,7 +1272,7 @@ def ack_part(chk, rnd, tier):
         stats["wide_inputs"] += len(wide)
         dg = DeepGen(env, rnd)
         deepf = []
-        if b % 2 == 0 or tier != "quick":
+        if b == 0 or (tier != "quick" and b % 10 == 0):
             for d in range(3, 10):
                 deepf += dg.ack_inputs(d, all_shapes=(tier != "quick"))
         if b == 0:
